@@ -44,7 +44,21 @@ func staticSizes(e *ref.E) (nodes, maxArgs, maxMembers int) {
 }
 
 // compareBackends is the C03 oracle proper. It reports through c.Violation.
+// clockDependent: the reference evaluator met strtotime of a form that is
+// relative to the current time ("", "now", "tomorrow" ...): two executions
+// of such a program may legitimately differ by the seconds between them.
+func clockDependent(o *ProgObs) bool {
+	if o.Case.E == nil { // no reference run: be conservative
+		return strings.Contains(o.Case.Src, "strtotime")
+	}
+	return o.RefOut.Silent != nil && strings.Contains(o.RefOut.Silent.Why, "strtotime")
+}
+
 func compareBackends(c *run.Ctx, o *ProgObs) {
+	clock := clockDependent(o)
+	if clock {
+		c.Count("clock_dependent_programs", 1)
+	}
 	var base *BackObs
 	baseName := ""
 	for i, b := range o.Back {
@@ -96,11 +110,11 @@ func compareBackends(c *run.Ctx, o *ProgObs) {
 				if (b.Ill == nil) != (base.Ill == nil) {
 					c.Violation("backend-value", fmt.Sprintf("%s / %s: one result is ill-formed :: %s", baseName, name, short(o.Case.Src)), o.witness())
 				}
-			} else if !ref.Same(base.RV, b.RV) {
+			} else if !clock && !ref.Same(base.RV, b.RV) {
 				c.Violation("backend-value", fmt.Sprintf("%s=%s but %s=%s :: %s", baseName, ref.Dump(base.RV), name, ref.Dump(b.RV), short(o.Case.Src)), o.witness())
 			}
 		}
-		if base.Res.Obs != nil && b.Res.Obs != nil && !sameTrace(base.Res.Obs.Trace, b.Res.Obs.Trace) {
+		if !clock && base.Res.Obs != nil && b.Res.Obs != nil && !sameTrace(base.Res.Obs.Trace, b.Res.Obs.Trace) {
 			c.Violation("backend-trace", fmt.Sprintf("host-call trace differs: %s [%s] vs %s [%s] :: %s", baseName, traceStr(base.Res.Obs.Trace), name, traceStr(b.Res.Obs.Trace), short(o.Case.Src)), o.witness())
 		}
 	}
